@@ -1287,3 +1287,37 @@ def _bounded_saved_state_sheet(tier="quick", seed=0):
 
 _c10_before_sheet = EXTRA_CHECKS["C10"]
 EXTRA_CHECKS["C10"] = (lambda tier="quick", seed=0: _c10_before_sheet(tier, seed) + _bounded_saved_state_sheet(tier, seed))
+
+
+# ---- C03 "output times are exactly start + k*dt ... up to the requested end year": the times requested in the Project constructor are applied AFTER the databook is loaded
+# (loading a databook aligns the start year with the data and sets a default end year: applied before, the user's request would be overwritten)
+def _replay_project_times():
+    """replay on the REAL Project constructor: the udt framework and databook with sim_start=2017, sim_end=2030, sim_dt=0.25"""
+    _quiet()
+    import atomica as at
+
+    P = at.Project(framework=at.LIBRARY_PATH / "udt_framework.xlsx", databook=at.LIBRARY_PATH / "udt_databook.xlsx", sim_start=2017, sim_end=2030, sim_dt=0.25, do_run=False)
+    got = (float(P.settings.sim_start), float(P.settings.sim_end), float(P.settings.sim_dt))
+    pre = dict(framework="udt", requested=dict(sim_start=2017, sim_end=2030, sim_dt=0.25))
+    if got != (2017.0, 2030.0, 0.25):
+        return dict(verdict="violates", detail="requested start 2017, end 2030, step 0.25; the project simulates from %r to %r in steps of %r" % got, prestate=pre)
+    return dict(verdict="holds", detail="the project simulates from 2017 to 2030 in steps of 0.25 as requested", prestate=pre)
+
+
+def _c03_project_times(tier="quick", seed=0):
+    import ast
+
+    from pyvc import source
+
+    fi = source.lookup("project:Project.__init__")
+    calls = [c for c in ast.walk(fi.node) if isinstance(c, ast.Call) and isinstance(c.func, ast.Attribute)]
+    loads = [c.lineno for c in calls if c.func.attr == "load_databook"]
+    applies = [c.lineno for c in calls if c.func.attr == "update_time_vector" and {k.arg for k in c.keywords} >= {"start", "end", "dt"}]
+    ok = bool(applies) and bool(loads) and min(applies) > max(loads)
+    note = ("the requested times are applied at line %s, after the databook is loaded (line %s)" % (applies, loads)) if ok else \
+           ("the requested start / end / step must be applied after `load_databook` (which sets the times from the data): applied at line(s) %s, databook loaded at line(s) %s" % (applies, loads))
+    return _attach([flow._ob("project:Project.__init__", "requested-times-are-applied-after-the-databook-is-loaded", ok, (applies or [fi.lineno])[0], note)], "requested-times", _replay_project_times)
+
+
+_c03_prev = EXTRA_CHECKS.get("C03")
+EXTRA_CHECKS["C03"] = (lambda tier="quick", seed=0: (_c03_prev(tier, seed) if _c03_prev else []) + _c03_project_times(tier, seed))
